@@ -23,8 +23,9 @@ def escape_name(s: str, d: Optional[dict] = None) -> str:
     # Ensure that all names are unique
     if d is not None:
         d[s] += 1
-        if d[s] > 1:
-            return s + f"_{d[s]}"
+        while d[s] > 1:  # the suffixed name might clash with another name as well
+            s = s + f"_{d[s]}"
+            d[s] += 1
     return s
 
 
